@@ -219,6 +219,12 @@ fn alpha(cfg: &Cfg) -> Vec<Op> {
         c(Decstbm(Some(1), Some(2))),
         c(Decstr),
         c(Ri),
+        c(lfs(12)),
+        // "anything" includes sequences that mean nothing: they must not reach the primary either
+        Op::new(Inert("\x1b]0;t\x07".into())),
+        Op::new(Inert("\x1b c".into())),
+        Op::new(Inert("\x1b#c".into())),
+        Op::new(Inert("\x1b 8".into())),
     ];
     for (cc, r) in [(cfg.cols + 1, cfg.rows), (cfg.cols.max(2) - 1, cfg.rows), (cfg.cols, cfg.rows + 1), (cfg.cols, cfg.rows.max(2) - 1)] {
         v.push(Op::resize(cc, r));
@@ -261,11 +267,11 @@ macro_rules! parts {
             name: "excursions-frame-oracle",
             sys: &Sys,
             cfgs: match tier {
-                Tier::Quick => cfgs(&[(3, 2), (2, 2)], &[None, Some(0)]),
-                Tier::Thorough => cfgs(&[(3, 2), (2, 2), (2, 3), (4, 3)], &[None, Some(0), Some(2)]),
+                Tier::Quick => cfgs(&[(3, 2), (2, 2)], &[None, Some(0), Some(10)]),
+                Tier::Thorough => cfgs(&[(3, 2), (2, 2), (2, 3), (4, 3)], &[None, Some(0), Some(2), Some(10)]),
             },
             alphabet: &alpha,
-            depth: tier.pick(5, 6),
+            depth: tier.pick(4, 6),
             seconds: tier.pick(30.0, 2400.0),
             validated: true,
             nontrivial: Some("calls_on_alternate_screen"),
